@@ -178,7 +178,7 @@ extern "C" void h_dec_addr()
 
 // ---------------------------------------------------------------------------------------------------------------------------
 // (4) integrity / fingerprint acceptance on buffers with a fixed attribute layout; header, attribute LENGTH fields of the
-//     MESSAGE-INTEGRITY/FINGERPRINT attributes and all payload bytes are symbolic; key non-empty (1..2 symbolic bytes).
+//     last attribute and all payload bytes are symbolic; key non-empty (1..2 symbolic bytes).
 // cfg0 = variant, cfg1 = key length bound (0: empty key)
 enum { V_MI = 1, V_MI_FP = 2, V_PRIO_MI = 3, V_USER_MI = 4, V_XADDR_MI = 5, V_UNK_MI = 6, V_MI_PRIO = 7, V_FP = 8, V_MI_MI = 9 };
 extern "C" void h_dec_mi()
@@ -196,14 +196,17 @@ extern "C" void h_dec_mi()
     QByteArray b = freshBytes(n, n);
     put16(b, 2, n - 20);
     if (ptype) { put16(b, 20, ptype); put16(b, 22, plen); if (var == V_XADDR_MI) { vp_set_byte(&b, 25, 1); } }
-    if (hasMi) put16(b, mi, 0x0008);                // its length field stays symbolic
+    // only the LAST attribute keeps a symbolic length field (a symbolic length in front would make every later position symbolic;
+    // that case is what the arbitrary-buffer instances h_dec_any cover)
     const unsigned p2 = mi + (hasMi ? 24 : 0);
-    if (var == V_MI_FP || var == V_FP) put16(b, p2, 0x8028);          // length field symbolic
+    if (hasMi) { put16(b, mi, 0x0008); if (post) put16(b, mi + 2, 20); }
+    if (var == V_MI_FP || var == V_FP) put16(b, p2, 0x8028);
     if (var == V_MI_PRIO) { put16(b, p2, 0x0024); put16(b, p2 + 2, 4); }
-    if (var == V_MI_MI) { put16(b, p2, 0x0008); put16(b, p2 + 2, 20); }
+    if (var == V_MI_MI) { put16(b, p2, 0x0008); }
 
     QXmppStunMessage r;
     const bool ok = r.decode(b, key, nullptr);
+    const unsigned verifiedInDecode = vp_hmac_calls;      // HMACs computed (and compared) by decode itself
 
     bool expect = true;
     if (hasMi) {
@@ -216,20 +219,22 @@ extern "C" void h_dec_mi()
         const bool lenOk = be16(b, p2 + 2) == 4;
         const bool crcOk = be32(b, p2 + 4) == (QXmppUtils::generateCrc32(patchedPrefix(b, p2, p2 - 20 + 8)) ^ 0x5354554eu);
         expect = expect && lenOk && crcOk;
-#ifndef KF_stun_no_integrity
-        if (var == V_FP && !key.isEmpty()) expect = false;          // C15: nothing was authenticated
-#endif
     }
-    if (hasMi && !key.isEmpty()) {
+    if (!hasMi && !key.isEmpty()) {
+        // no MESSAGE-INTEGRITY at all: C14 only demands that nothing with a wrong FINGERPRINT is accepted (whether such a message
+        // may be accepted under a key at all is C15's decode-implies-authenticated, instance auth_fp)
+        vp_assert(!ok || expect, "C14 a FINGERPRINT is accepted only if its length is 4 and it is the CRC of the adjusted prefix");
+    } else if (hasMi && !key.isEmpty()) {
         vp_assert(!ok || expect, "C14 a message carrying MESSAGE-INTEGRITY is accepted under a key only if length is 20 and the HMAC over the adjusted prefix matches (and a FINGERPRINT, if present, is the CRC)");
         vp_assert(ok || !expect, "C14 a message whose MESSAGE-INTEGRITY (and FINGERPRINT) verify is accepted");
     } else {
-        vp_assert(ok == expect, "C14 FINGERPRINT / MESSAGE-INTEGRITY acceptance");
+        vp_assert(ok == expect, "C14 FINGERPRINT / MESSAGE-INTEGRITY acceptance without a key");
     }
+    if (vp_cfg2()) vp_assert(!ok || key.isEmpty() || verifiedInDecode >= 1, "C15 decode under a non-empty key returns true only if a MESSAGE-INTEGRITY attribute was verified");
     if (ok) {
         if (var == V_PRIO_MI) vp_assert(r.priority() == be32(b, 24), "C14 attribute in front of MESSAGE-INTEGRITY is decoded");
         if (var == V_MI_PRIO) vp_assert(r.priority() == 0, "C14 an attribute after MESSAGE-INTEGRITY other than FINGERPRINT is ignored");
-        if (var == V_MI_MI && !key.isEmpty()) vp_assert(vp_hmac_calls == 2, "C14 a second MESSAGE-INTEGRITY after the first is ignored, not verified");   // 1 decode + 1 harness
+        if (var == V_MI_MI && !key.isEmpty()) vp_assert(verifiedInDecode == 1, "C14 a second MESSAGE-INTEGRITY after the first is ignored, not verified");
     }
 }
 
@@ -254,16 +259,19 @@ extern "C" void h_auth_any() { decodeAny(true); }
 // truncated packets and packets whose length field does not match: rejected, nothing else is read
 extern "C" void h_dec_short()
 {
-    QByteArray b = freshBytes(0, 19); QByteArray key = freshBytes(0, 1);
-    QXmppStunMessage r;
-    vp_assert(!r.decode(b, key, nullptr), "C14 a packet shorter than the STUN header is rejected");
-    quint32 cookie = 7; QByteArray id;
-    vp_assert(QXmppStunMessage::peekType(b, cookie, id) == 0, "C14 peekType: a packet shorter than the STUN header is not STUN");
+    for (unsigned n = 0; n < 20; n++) {          // every size below the header size; the size is a constant in each round
+        QByteArray b = freshBytes(n, n); QByteArray key = freshBytes(0, 1);
+        QXmppStunMessage r;
+        vp_assert(!r.decode(b, key, nullptr), "C14 a packet shorter than the STUN header is rejected");
+        quint32 cookie = 7; QByteArray id;
+        vp_assert(QXmppStunMessage::peekType(b, cookie, id) == 0, "C14 peekType: a packet shorter than the STUN header is not STUN");
+    }
 }
 extern "C" void h_dec_badlen()
 {
-    const unsigned n = vp_cfg0();
+    const unsigned n = vp_cfg0();                // 28: header + one well-formed PRIORITY attribute
     QByteArray b = freshBytes(n, n); QByteArray key = freshBytes(0, 1);
+    put16(b, 20, 0x0024); put16(b, 22, 4);
     vp_assume(be16(b, 2) != n - 20);
     QXmppStunMessage r;
     vp_assert(!r.decode(b, key, nullptr), "C14 a packet whose length field differs from the datagram size is rejected");
